@@ -46,7 +46,10 @@ LEMMA_SCHEMAS = {"strip_padded", "int_padded", "strip_core", "strip_blank", "str
 class Loop:
     """Invariant / variant of the n-th loop (source order) of a function."""
 
-    def __init__(self, invariants=(), decreases=None, vars=None, header=None, modifies=(), unroll=False, hints=()):
+    def __init__(self, invariants=(), decreases=None, vars=None, header=None, modifies=(), unroll=False, hints=(), step=()):
+        # step: [(name, clause)] assertions at the END of an arbitrary iteration of the body (may mention the loop
+        # target and the body's locals): what one iteration establishes, checked like any other obligation
+        self.step = [(e if isinstance(e, tuple) else (f"step{i}", e)) for i, e in enumerate(step)]
         self.hints = list(hints)  # lemma-schema instances assumed at the loop head (after the havoc)
         for h in self.hints:
             t = ast.parse(h, mode="eval").body
@@ -1130,6 +1133,13 @@ def _check_invs(ex, st, spec: Loop, kind, fname, ordinal, extra_env=None):
         ex.oblige(st, f"{fname}.loop{ordinal}.{kind}.inv{i}", f"loop-{kind}", t, info={"clause": inv})
 
 
+def _check_steps(ex, st, spec: Loop, fname, ordinal):
+    env = {**getattr(ex, "cur_env", {}), **st.fr.env}
+    for name, clause in spec.step:
+        t = eval_spec(ex, st, clause, env, what=f"{fname}.loop{ordinal}.{name}")
+        ex.oblige(st, f"{fname}.loop{ordinal}.step.{name}", "loop-step", t, info={"clause": clause})
+
+
 def _assume_invs(ex, st, spec: Loop, extra_env=None):
     env = {**getattr(ex, "cur_env", {}), **st.fr.env}
     env.update(extra_env or {})
@@ -1391,6 +1401,7 @@ def _cut_for(ex, node, st, it):
             for st3, out in ex.run_block(node.body, st2):
                 _frame_check(ex, st3, before, spec, fname, ordinal, attrs)
                 if out[0] in ("normal", "continue"):
+                    _check_steps(ex, st3, spec, fname, ordinal)
                     _check_invs(ex, st3, spec, "preserve", fname, ordinal, {"_i": SV("int", i + 1)})
                 elif out[0] == "break":
                     st3.ghost = dict(st3.ghost)
